@@ -1,0 +1,1 @@
+//! Verification facade: `parse` (feature `verif`).
